@@ -44,6 +44,9 @@ class Likelihood(object):
             return ll, self.blob(x)
         if self.blobs == 'two':
             return ll, self.blob(x, 0), self.blob(x, 1)
+        if self.blobs == 'mixed':
+            # an integer blob followed by a real one (heterogeneous kinds)
+            return ll, self.W.uf('BlI', x, 'int'), self.blob(x, 1)
         if self.blobs == 'array':
             return ll, self.W.np.array([self.blob(x, 0), self.blob(x, 1)])
         raise ValueError(self.blobs)
